@@ -47,7 +47,8 @@ WRITE_OPS = c17.WRITE_OPS + ['update_rp', 'update_rp', 'post_allocations',
                              'move_subtree', 'post_allocations_existing',
                              'post_allocations_existing',
                              'delete_allocations_held',
-                             'delete_allocations_held']
+                             'delete_allocations_held',
+                             'put_rp_aggregates_swap']
 
 
 def core(d):
